@@ -29,7 +29,7 @@ AXES = {
     "objective": (["unity", None, "max"], ["unity", None, "max"]),
     "neutral": ([None, "given"], [None, "given"]),
     "K": (["vec", "mat", None], ["vec", "mat", None]),
-    "baseline": (["vec", None], ["vec", None]),
+    "baseline": (["vec", None], ["vec", None, "scalar"]),
     "lb": (["nonneg", "any"], ["nonneg", "any"]),
     "ub": (["finite", "inf"], ["finite", "inf"]),
     "dn": (["pos", "zero"], ["pos", "zero"]),
@@ -99,6 +99,24 @@ def check(rep, an, tier):
                 rep.check("R-SIGN", "scales declared positive", bool(o.attrs.get("pos")), where=f"{o.fn.module.relpath}:{o.node.lineno}",
                           construct=norm_text(o.node), entry=entry, config=res.config)
             scale_ids = vv
+            # the totals and offsets that get scaled are those of the TARGET (total capture, baseline included)
+            if cfg["baseline"]:
+                seen_fr = set()
+                for c in cons:
+                    for at, v, ops in R.walk_atoms(c):
+                        for o_ in ops:
+                            if o_.tag("cvx") or "B" not in o_.flat().data or isinstance(o_.frame, tuple):
+                                continue
+                            k_ = (o_.frame, tuple(sorted(o_.flat().data)))
+                            if k_ in seen_fr:
+                                continue
+                            seen_fr.add(k_)
+                            cn = c.tag("node")
+                            rep.check("R-QTY", "the scaled totals are those of the total target capture", None if o_.frame is None else o_.frame == "TOTAL",
+                                      where=F.where_po(po), construct=f"target-derived operand of {norm_text(cn)[:60] if cn is not None else 'constraint'}",
+                                      entry=entry, config=res.config,
+                                      msg=f"the target-derived quantity that is multiplied by a scale is a {o_.frame} capture (computed from "
+                                          f"{sorted(o_.flat().data)}): the fitted total equals scale × (target − baseline) total, not scale × target total")
             # which scale enters which constraint
             for c in cons:
                 deps = R.closure_deps(res, c)
